@@ -367,8 +367,11 @@ def observe_main(spec_path):
     dbfile = os.path.join(path, "identity.db") if kind == "identity" else os.path.join(path, "sqlite", WALLET_NAME + ".db")
     if res["open"] == "ok":
         for t in tables + ["option"]:
-            rows = list(db.execute("SELECT * FROM %s ORDER BY rowid" % t))
-            res["tables"][t] = [[hx(x) if isinstance(x, (bytes, type(None))) else x for x in r] for r in rows]
+            try:
+                rows = list(db.execute("SELECT * FROM %s ORDER BY rowid" % t))
+                res["tables"][t] = [[hx(x) if isinstance(x, (bytes, type(None))) else x for x in r] for r in rows]
+            except BaseException as e:
+                res["tables"][t] = "error:%s:%s" % (type(e).__name__, str(e)[:80])
         res["version"] = db.database_version
     else:
         res["tables"] = raw_dump(dbfile, tables)
@@ -430,9 +433,72 @@ def observe_main(spec_path):
         c2.close()
     except sqlite3.Error as e:
         res["all_tables"] = "error:" + type(e).__name__
+    if res["open"] == "ok":
+        res["probe"] = usability_probe(kind, path, db)
     with open(spec["out"], "w") as f:
         json.dump(res, f)
     os._exit(0)
+
+
+def usability_probe(kind, path, db):
+    """After everything has been observed: is the reopened database usable?  Read every table through the class's
+    own API, insert a record, read it back, close, open once more, read it again.  -> {"ok", "step", "error"}"""
+    step = "start"
+    try:
+        if kind == "identity":
+            from ipv8.attestation.identity.database import IdentityDatabase
+            from ipv8.attestation.identity.manager import PseudonymManager
+            from ipv8.keyvault.crypto import ECCrypto
+            crypto = ECCrypto()
+            probe = crypto.key_from_private_bin(b"LibNaCLSK:" + hashlib.sha512(b"c19 probe").digest())
+            auth = crypto.key_from_private_bin(b"LibNaCLSK:" + hashlib.sha512(b"c19 probe authority").digest())
+            step = "read"
+            db.get_known_identities()
+            for k in (probe.pub(), auth.pub()):
+                db.get_tokens_for(k), db.get_metadata_for(k), db.get_attestations_for(k), db.get_attestations_by(k)
+            step = "insert"
+            ps = PseudonymManager(db, private_key=probe)
+            cred = ps.create_credential(sha3(b"probe attribute"), {"name": "probe"})
+            if cred is None:
+                raise RuntimeError("create_credential returned None")
+            if not ps.add_attestation(auth.pub(), ps.create_attestation(cred.metadata, auth)):
+                raise RuntimeError("add_attestation returned False")
+            step = "read-back"
+            if not db.get_tokens_for(probe.pub()) or cred.metadata not in db.get_metadata_for(probe.pub()) \
+                    or len(db.get_attestations_over(cred.metadata)) != 1:
+                raise RuntimeError("the inserted credential is not read back")
+            step = "close"
+            db.close()
+            step = "open-again"
+            db2 = IdentityDatabase(os.path.join(path, "identity.db"))
+            db2.open()
+            step = "read-again"
+            ps2 = PseudonymManager(db2, public_key=probe.pub())
+            if len(ps2.tree.elements) != 1 or len(ps2.get_credentials()) != 1 or len(ps2.get_credentials()[0].attestations) != 1:
+                raise RuntimeError("the inserted credential is gone after another open")
+            db2.close()
+        else:
+            from ipv8.attestation.wallet.database import AttestationsDB
+            step = "read"
+            db.get_all()
+            db.get_attestation_by_hash(b"\x00" * 32)
+            step = "insert"
+            h = sha3(b"c19 probe blob")
+            db.insert_attestation(StubAtt(b"probe-blob"), h, StubKey(b"probe-key"), "id_metadata")
+            step = "read-back"
+            if not db.get_attestation_by_hash(h) or not any(r[0] == h for r in db.get_all()):
+                raise RuntimeError("the inserted attestation is not read back")
+            step = "close"
+            db.close()
+            step = "open-again"
+            db2 = AttestationsDB(path, WALLET_NAME)
+            step = "read-again"
+            if not any(r[0] == h and r[1] == b"probe-blob" for r in db2.get_all()):
+                raise RuntimeError("the inserted attestation is gone after another open")
+            db2.close()
+        return {"ok": True}
+    except BaseException as e:
+        return {"ok": False, "step": step, "error": "%s: %s" % (type(e).__name__, str(e)[:120])}
 
 
 def zygote_main():
@@ -605,7 +671,9 @@ LEGACY_FN = {"Tokens": "insert_token", "Metadata": "insert_metadata", "Attestati
 
 
 def make_legacy(d, legacy):
-    """a version-1 file as written by earlier releases"""
+    """a version-1 file as written by earlier releases (kind "fresh": no file at all - first open)"""
+    if legacy["kind"] == "fresh":
+        return
     if legacy["kind"] == "wallet-v1":
         os.makedirs(os.path.join(d, "sqlite"), exist_ok=True)
         path = os.path.join(d, "sqlite", WALLET_NAME + ".db")
@@ -701,6 +769,12 @@ def oracle(scen, started, acked, obs):
     if obs.get("open") != "ok":
         out.append(("reopen/raises-%s" % obs.get("open"), "reopening the database after the kill raised %s %s"
                     % (obs.get("open"), obs.get("open_detail", obs.get("detail", ""))[:120])))
+    probe = obs.get("probe")
+    if obs.get("open") == "ok" and isinstance(probe, dict) and not probe.get("ok"):
+        first = len(scen.get("procs", [])) == 1 and (not scen.get("legacy") or scen["legacy"].get("kind") == "fresh")
+        out.append(("%s/unusable-after-kill" % ("fresh-open" if first else "reopen"),
+                    "the database opens after the kill but cannot be used: step '%s' of read-all / insert / read-back / "
+                    "close / open-again failed with %s" % (probe.get("step"), probe.get("error"))))
     tables = obs.get("tables", {})
     names = ID_TABLES if kind == "identity" else [WALLET_NAME]
     for t in names:
@@ -865,7 +939,7 @@ Definition run_upgrade_range (c : upgrade_range_case) : bool :=
 """
 XMETA = {"table_ids": {}, "literals": {}}      # filled from tr_db.write_upgrade
 # the version-1 files as the model sees them: table -> (key columns, width)   (history, see spec/S19x_legacy.v)
-V1_SHAPE = {"identity-v1": {"Tokens": ([0, 1, 3], 5), "Metadata": ([0, 1], 4), "Attestations": ([0, 2], 4)},
+V1_SHAPE = {"fresh": {}, "identity-v1": {"Tokens": ([0, 1, 3], 5), "Metadata": ([0, 1], 4), "Attestations": ([0, 2], 4)},
             "wallet-v1": {WALLET_NAME: ([0], 3)}}
 
 
@@ -905,7 +979,8 @@ def v1_file_to_coq(legacy, ids):
         rows = legacy["rows"].get(t, [])
         tabs.append("mkXT %d [%s] %d%%nat [%s]" % (xtid(t), "; ".join("%d%%nat" % i for i in pk), n,
                                                     "; ".join(zl([ids.of(x) for x in r]) for r in rows)))
-    tabs.append("mkXT 0 [0%nat] 2%nat [[0; 1]]")
+    if legacy["kind"] != "fresh":
+        tabs.append("mkXT 0 [0%nat] 2%nat [[0; 1]]")
     return "[" + "; ".join(tabs) + "]"
 
 
@@ -1539,6 +1614,8 @@ def _run(ctx, scratch, tr_db, coqrun, VERIF):
     except Exception as e:
         ctx.broke("translator tr_db (upgrade programs) aborted", e)
     # ---- stage P
+    if xgen is not None and gen_text is None:
+        ctx.proofs(part="C19x")          # the statement-level part stands on its own generated file
     if gen_text is not None:
         ctx.proofs()
         if xgen is not None:
@@ -1578,8 +1655,12 @@ def _run(ctx, scratch, tr_db, coqrun, VERIF):
         FAST["on"] = True
         plan.append((scens[0], dict(every_event=False, vm_kills=3)))
         plan.append((scens[1], dict(every_event=False, vm_kills=3)))
-        one = {"db": "identity", "keys": w.keybins, "procs": [scens[0]["procs"][0][:3]], "label": "creation-identity"}
+        fresh = {"kind": "fresh", "rows": {}}          # first open of a brand-new file, then a few inserts
+        one = {"db": "identity", "keys": w.keybins, "procs": [scens[0]["procs"][0][:3]], "label": "creation-identity",
+               "legacy": fresh}
         plan.append((one, dict(every_event=False, vm_kills=3)))
+        onew = {"db": "wallet", "keys": [], "procs": [scens[1]["procs"][0][:2]], "label": "creation-wallet", "legacy": fresh}
+        plan.append((onew, dict(every_event=False, vm_kills=3)))
         plan.append((legacy_wallet(w), dict(every_event=False, vm_kills=3)))
         plan.append((legacy_identity(w), dict(every_event=False, vm_kills=3)))
     else:
@@ -1587,9 +1668,11 @@ def _run(ctx, scratch, tr_db, coqrun, VERIF):
         FAST["fresh_every"] = 4
         plan.append((scens[0], dict(vm_kills=60, timer_kills=40, first_proc_kills=(9, 14, 16, 30, 41))))
         plan.append((scens[1], dict(vm_kills=60, timer_kills=40, first_proc_kills=(8, 13, 25))))
-        one = {"db": "identity", "keys": w.keybins, "procs": [scens[0]["procs"][0][:6]], "label": "creation-identity"}
+        fresh = {"kind": "fresh", "rows": {}}
+        one = {"db": "identity", "keys": w.keybins, "procs": [scens[0]["procs"][0][:6]], "label": "creation-identity",
+               "legacy": fresh}
         plan.append((one, dict(vm_kills=40, timer_kills=20)))
-        onew = {"db": "wallet", "keys": [], "procs": [scens[1]["procs"][0][:3]], "label": "creation-wallet"}
+        onew = {"db": "wallet", "keys": [], "procs": [scens[1]["procs"][0][:3]], "label": "creation-wallet", "legacy": fresh}
         plan.append((onew, dict(vm_kills=40, timer_kills=20)))
         plan.append((legacy_wallet(w), dict(vm_kills=40, timer_kills=20)))
         plan.append((legacy_identity(w), dict(vm_kills=40, timer_kills=20)))
